@@ -266,6 +266,20 @@ def auto_discharge(facts, s):
         if srcs and all(re.search(r"NonZero.*::new$|num::nonzero::NonZero.*::new$", norm(r.site.name)) for r in srcs) and \
                 all(all(a.get("k") is not None for a in r.site.args) for r in srcs):
             return ("constant-input", "unwrap of NonZero::new(<literal>)")
+    if s.kind == "vec-index" and norm(c.name).endswith("::remove") and len(c.args) == 2 and c.args[1].get("k") is not None and str(c.args[1]["k"].get("v", "")).startswith("0"):
+        # `v.remove(0)` on the edge where the same vector was just found non-empty (`while !v.is_empty()`, `if v.len() > 0`)
+        def rsig(o):
+            return {(r.kind, r.desc if r.kind != "call" else ("call", r.site.bb)) for r in f.roots(o, through_calls=False, max_nodes=100) if r.kind in ("arg", "upvar", "call")}
+        rv = rsig(c.args[0])
+
+        def nonempty(lab):
+            if lab.kind == "bool" and lab.value is False and lab.cond.kind == "call" and lab.cond.site.matches(r"(vec::Vec|VecDeque).*::is_empty$"):
+                ro = rsig(lab.cond.site.args[0])
+                return bool(rv) and rv == ro
+            return False
+        ok, _w = f.guarded(s.bb, nonempty)
+        if ok and rv:
+            return ("guarded-index", "remove(0) on the not-empty edge of the same vector's is_empty() test")
     if s.kind == "from_static":
         if all(a.get("k") is not None or _const_rooted(f, a) for a in c.args):
             return ("constant-input", "from_static on a string literal")
